@@ -109,6 +109,12 @@ func (kc *Cache[V]) Update(key []byte, fn func(v Entry[V], exists bool) Entry[V]
 	needToEvict := kc.count > kc.max
 	if needToEvict {
 		evicted = kc.evict()
+		if evicted == nil {
+			// every bucket is at its minimum, nothing may be evicted: refuse the new entry.
+			b.delete(key)
+			kc.count--
+			return nil, false
+		}
 		added = !bytes.Equal(key, evicted.Key)
 	}
 	return evicted, added
